@@ -513,9 +513,26 @@ func keyshareCommitmentsRule(P *Program, R *Report) {
 			switch {
 			case strings.Contains(d, "[1024]"):
 				guarded := false
-				for _, a := range controllingConds(pb) {
+				is1024 := func(a Atom) bool {
 					a = normAtom(a)
-					if desc(a.V) == "(call:big.(*Int).BitLen(arg#1[#i].N)==1024)" && a.Want == True {
+					d := desc(a.V)
+					if a.Want != True {
+						return false
+					}
+					if d == "(call:big.(*Int).BitLen(arg#1[#i].N)==1024)" || d == "(call:big.(*Int).BitLen(arg#1[*].N)==1024)" {
+						return true
+					}
+					// inside the predicate handed to a search over the keys, the element is the predicate's parameter
+					return a.Fn != nil && a.Fn.Parent() != nil && d == "(call:big.(*Int).BitLen(<gabikeys.PublicKey>.N)==1024)"
+				}
+				for _, a := range controllingConds(pb) {
+					if is1024(a) {
+						guarded = true
+					}
+					// `if slices.ContainsFunc(keys, func(k) bool { return k.N.BitLen() == 1024 })`
+					q := &MustPass{P: P, Match: is1024}
+					q.init()
+					if q.existsImplies(a, 0) {
 						guarded = true
 					}
 				}
